@@ -86,7 +86,7 @@ try:
     if not a.skip_suite:
         pb, fb = suite(base)
         pm, fm = suite(mut)
-        flaky = {"test_sig_verify", "test_add_different_scale_points", "test_add_same_scale_points"}
+        flaky = {"test_sig_verify", "test_add_different_scale_points", "test_add_same_scale_points", "test_add_one_scaled_point"}
         new_fail = {f for f in fm - fb if not any(x in f for x in flaky)}
         meta["suite_passed_without_change"] = pb
         meta["suite_passed_with_change"] = pm
